@@ -125,7 +125,7 @@ class Analyzer:
             inputs = [inputs]
         # Process inputs using dedicated function
         full_inputs = self._process_inputs(inputs)
-        n_photons = full_inputs[0].n_photons
+        n_photons = inputs[0].n_photons
         # Generate lists of possible outputs with and without heralded modes
         full_outputs, filtered_outputs = self._generate_outputs(
             n_modes, n_photons
